@@ -138,6 +138,13 @@ def generate(seed, tier):
         from sim import byz
         sc['byz'] = {'kind': r.choice(byz.KINDS_C12), 'seed': r.randrange(2 ** 31)}
         sc['meta']['byz'] = sc['byz']['kind']
+        if sc['byz']['kind'] in ('narrow_rekey_response', 'widen_response') and r.random() < 0.6:
+            # PFS with preference lists in opposite orders: every CREATE_CHILD_SA goes through an INVALID_KE_PAYLOAD round first, and the
+            # answer that is tampered with is the answer to the *retried* request
+            g = r.sample(['14', '19', '20'], 2)
+            for pa_, pb_ in zip(ca['protect'], cb['protect']):
+                pa_['dh'], pb_['dh'] = list(g), list(reversed(g))
+            sc['meta']['pfs_retry'] = True
     return sc
 
 
